@@ -53,6 +53,8 @@ cfg("dev_UnicastToAll", "sensitivity (plausible bug): a unicast is written to ev
     "CS2", "WS1", 1, 0, "FALSE", "ReplyUni", "ExtNone", dev='{"UnicastToAll"}', inv="DeliveryInvs", sym=False)
 cfg("dev_PingSkippedWhenActive", "sensitivity (seeded change C12-active-client-never-pinged): no heartbeat ping for a stream that delivered a message in the same iteration; a client that talks in every ping round is reaped although it answered every ping it got",
     "CS1", "WS1", 2, 0, "TRUE", "ReplyNone", "ExtNone", dev='{"PingSkippedWhenActive"}', inv="DispatchInvs", sym=False)
+cfg("dev_FlushWriteMayTruncate", "sensitivity (seeded change C12-idle-socket-left-nonblocking): a flushed message may reach a receiver only in part: exactly-once delivery to the addressee / every current member fails",
+    "CS1", "WS1", 1, 0, "FALSE", "ReplyUni", "ExtNone", dev='{"FlushWriteMayTruncate"}', inv="UnicastOnlyAddressee", sym=False)
 # thorough
 cfg("t_uni", "thorough: 2 clients x <= 2 messages, pool of 2, echo (unicast) replies, repaired pool",
     "CS2", "WS2", 2, 0, "FALSE", "ReplyUni", "ExtNone")
